@@ -30,7 +30,7 @@ ASSUMPTIONS = [
     "text/table after a FAILING execute_steps are not demanded",
     "a cleanup error at the test-run layer fails the run; at feature/rule/scenario layer it makes the owner 'error'",
 ]
-REQUIRED = {"run.rule_attribute_ends_with_its_rule": 1000, "hist.observable_result": {"quick": 50000, "thorough": 2000000}, "hist.cleanup_order_exactly_once": {"quick": 10000, "thorough": 500000},
+REQUIRED = {"wild.every_cleanup_ran_exactly_once": {"quick": 8, "thorough": 300}, "run.rule_attribute_ends_with_its_rule": 1000, "hist.observable_result": {"quick": 50000, "thorough": 2000000}, "hist.cleanup_order_exactly_once": {"quick": 10000, "thorough": 500000},
             "hist.pop_shrinks_stack_even_when_raising": {"quick": 10000, "thorough": 400000}, "hist.pop_raises_iff_cleanup_raised": {"quick": 10000, "thorough": 400000},
             "run.visibility": {"quick": 3000, "thorough": 150000}, "run.cleanups_lifo_exactly_once_at_scope_end": {"quick": 800, "thorough": 40000},
             "run.raising_cleanup_fails_owner_and_run": {"quick": 60, "thorough": 3000}, "run.execute_steps_restores_text_table": {"quick": 30, "thorough": 1500},
@@ -893,6 +893,10 @@ def run(spec, mon):
     two_runs_on_one_runner(lab, mon, rng, 4 if tier == "quick" else 150)
     if shard == 0:
         cleanup_error_then_skip(lab, mon, rng, 4)
+    if spec["shard"] == 0:
+        # behave's own acceptance features as workload: the probes of bvm.wild in every behave process they spawn
+        from ..wild import run as wild
+        wild.feed(mon, ID, spec.get("tier", "quick"))
 
 
 def replay(case, mon):
@@ -912,4 +916,4 @@ LEVEL_TEXT = ("Exploration with an exhaustive core: every operation history up t
               "the owning element's last after-hook, owner 'error' + failed run for raising cleanups; execute_steps must "
               "restore the caller's text/table.")
 LEVEL_NOTE = "Trusted: bvm/ref/ctxmodel.py and the offline scope reconstruction in this module; one process, no threads."
-TECHNIQUE = "runtime monitoring: lock-step reference model over operation histories + offline trace checker over recorded run events"
+TECHNIQUE = "runtime monitoring: lock-step reference model over operation histories + offline trace checker over recorded run events; plus oracle-free invariant probes armed (sitecustomize) in every behave process that the repository's own acceptance features spawn"
